@@ -30,12 +30,14 @@ Open Scope Q_scope.
 (* ---- the predictor's configuration applied to a frame of size (H, W) *)
 Definition si_at (c : si_cfg) (H W : Z) : si_cfg :=
   {| si_H := H; si_W := W; si_mh := si_mh c; si_mw := si_mw c; si_scale := si_scale c; si_ms := si_ms c;
-     si_os := si_os c; si_sigma := si_sigma c; si_lthr := si_lthr c; si_fixed_F8 := si_fixed_F8 c |}.
+     si_os := si_os c; si_sigma := si_sigma c; si_lthr := si_lthr c; si_fixed_F8 := si_fixed_F8 c;
+     si_thr0 := si_thr0 c; si_fixed_Fz := si_fixed_Fz c |}.
 
 Definition td_at (c : td_cfg) (H W : Z) : td_cfg :=
   {| td_H := H; td_W := W; td_mh := td_mh c; td_mw := td_mw c; td_sc := td_sc c; td_si := td_si c;
      td_msc := td_msc c; td_msi := td_msi c; td_osc := td_osc c; td_osi := td_osi c;
-     td_ch := td_ch c; td_cw := td_cw c; td_sigma := td_sigma c; td_lthr := td_lthr c |}.
+     td_ch := td_ch c; td_cw := td_cw c; td_sigma := td_sigma c; td_lthr := td_lthr c;
+     td_thr0 := td_thr0 c; td_fixed_Fz := td_fixed_Fz c |}.
 
 (* ---- what the loop over one batch appends, per frame *)
 Definition frame_eff (mh mw : option Z) (hw : Z * Z) : Q := sm_eff (sizematch (fst hw) (snd hw) mh mw).
@@ -59,7 +61,9 @@ Definition sf_size (f : sframe) : Z * Z := (sf_H f, sf_W f).
    peaks * output_stride [/ input_scale] / inputs["eff_scale"][b]) *)
 Definition si_kp_e (c : si_cfg) (pv : provider) (e : Q) (p : kp) : kp * option Q :=
   match p with
-  | None => (None, None)
+  | None =>
+      zero_map_answer (si_thr0 c) (si_fixed_Fz c)
+        (si_decode 0%Z (si_os c) (si_scale c) e, si_decode 0%Z (si_os c) (si_scale c) e)
   | Some (x, y) =>
       let '(gx, gy, _) := si_geom c pv in
       let ux := aff_apply (fst gx) x in
@@ -68,7 +72,7 @@ Definition si_kp_e (c : si_cfg) (pv : provider) (e : Q) (p : kp) : kp * option Q
       let cy := nearest_cell uy (si_os c) (ncells (snd gy) (si_os c)) in
       let a := peak_arg (inject_Z cx * inject_Z (si_os c) - ux)
                         (inject_Z cy * inject_Z (si_os c) - uy) (si_sigma c) (si_os c) in
-      if Qle_bool (si_lthr c) a
+      if above_global (si_thr0 c) (si_lthr c) a
       then (Some (si_decode cx (si_os c) (si_scale c) e,
                   si_decode cy (si_os c) (si_scale c) e), Some a)
       else (None, None)
